@@ -5,6 +5,7 @@ import (
 	"crypto/sha256"
 	"fmt"
 	"os"
+	"runtime"
 	"strings"
 	"time"
 
@@ -250,7 +251,12 @@ func runC06(t *sim.T, tier string) *sim.Violation {
 			order[k] = nOps - 1 - k
 		}
 	}
+	gcBetween := t.Chance(1, 6)
 	for _, k := range order {
+		if gcBetween {
+			runtime.GC() // sync.Pool contents and finalizers: state that lives exactly until the next collection
+			runtime.GC()
+		}
 		ii, obj, inherit := ops[k].ii, ops[k].obj, ops[k].inherit
 		in := inputs[ii]
 		var hist, histN string
